@@ -116,6 +116,7 @@ func runC08(e *Env) {
 	wtask := -1
 	allNil := true
 	writerDone := false
+	lastTimeout := false
 	curOp := -1
 	var curInvokeNs int64
 	writerT := simrt.GoNamed("writer", false, func() {
@@ -173,6 +174,7 @@ func runC08(e *Env) {
 				}
 			case isErr(err, ErrWriteTimeout):
 				allNil = false
+				lastTimeout = true
 				if o.cfg == "none" {
 					e.Fail("timeout-unconfigured", "timeout/unconfigured", "op %d %s returned ErrWriteTimeout with no timeout configured", i, o.kind)
 				}
@@ -276,6 +278,35 @@ func runC08(e *Env) {
 		e.FailP("C04", "stream-intact", "flush-stream-corrupt", "the peer received %d bytes that are not a prefix of the %d submitted (first difference at %d)", len(got), submitted, firstDiff(got, want))
 	} else if allNil && writerDone && !peerClosed && closeSeq < 0 && len(got) != submitted {
 		e.Fail("nil-means-accepted", "bytes-missing-after-nil", "every flush returned nil, %d bytes were submitted, the peer drained everything and has only %d", submitted, len(got))
+	}
+	// ---- phase 3: a flush that timed out, everything at rest (the peer has drained, the poller is
+	// idle), and the user tries again with more than the socket takes at once. "nil only after every
+	// submitted byte has been accepted" holds for that Flush as for any other.
+	if lastTimeout && writerDone && conn.IsActive() && !peerClosed && closeSeq < 0 && !second && e.Chance(2, 3) {
+		retryDone := false
+		var retryErr error
+		n := e.Pick(2000, 20000, 40000, 100000)
+		simrt.GoNamed("retrier", false, func() {
+			conn.SetWriteDeadline(time.Time{})
+			conn.SetWriteTimeout(0)
+			if buf, err := conn.Malloc(n); err == nil {
+				copy(buf, streamBytes(stream, submitted, n))
+				submitted += n
+			}
+			retryErr = conn.Flush()
+			accepted := int(vsys.FDs[conn.fd].Written)
+			if retryErr == nil && accepted < submitted {
+				e.Fail("nil-means-accepted", "nil-before-accepted/retry-after-timeout", "a Flush after an earlier one had timed out (everything at rest in between) returned nil but the kernel has accepted only %d of the %d bytes submitted so far", accepted, submitted)
+			}
+			retryDone = true
+		})
+		simrt.WaitQuiescent(true)
+		simrt.Probe("flush_retried_after_timeout")
+		if !retryDone {
+			e.Fail("flusher-stuck", "stuck/retry-after-timeout", "a Flush issued after an earlier one had timed out is still blocked although the peer keeps draining and no timeout is set; tasks=%v", simrt.TaskStates())
+		} else if retryErr == nil && len(got) < submitted {
+			e.Fail("nil-means-accepted", "bytes-missing-after-nil/retry-after-timeout", "the retried Flush returned nil, %d bytes were submitted in total, the peer drained everything and has only %d", submitted, len(got))
+		}
 	}
 	pollerSent := 0
 	for _, ev := range vsys.Events {
